@@ -217,6 +217,21 @@ Theorem C15_subscription_batch_leak_refuted_before_fix :
     sub_run true current p init [tr1; tr2] = None.
 Proof. exact batch_leak_before_fix. Qed.
 
+(** Before the repair of the shared asyncResolutions channel: the resolution of a goroutine that an
+    earlier event started ([LRecv 7], no item of this execution; step relation [step_stale]) is
+    consumed by the running event's idle handler, which then returns to the executor having filled
+    no promise of this execution while promise 0 is still awaited; the Spec rejects the history and
+    the repaired code ([run]) cannot produce it. *)
+Theorem C15_subscription_stale_resolution_refuted_before_fix :
+  exists p pre mid s,
+    wf_items p = true /\ bfun_ok p /\
+    run_stale current p init (pre ++ LIdleEnter :: mid ++ [LIdleExit]) = Some s /\ ~ In LIdleExit mid /\
+    st_phase s = PPoll /\ live p s 0 = true /\ chan_empty s 0 = true /\
+    (forall w, In w (deliveries mid) -> ~ In w (created_of (pre ++ mid))) /\
+    mon_run p mon_init (pre ++ LIdleEnter :: mid ++ [LIdleExit]) = None /\
+    run current p init (pre ++ LIdleEnter :: mid ++ [LIdleExit]) = None.
+Proof. exact stale_resolution_before_fix. Qed.
+
 (** A hand-over in Go that also selects on the request context (the seeded change C15-2, as the
     step relation [step_ctxdrop]): after a cancellation the goroutine may end without handing its
     result over; the request [create 0; idle-enter; cancel; finish 0; arrive 0; exit 0] is then inside
@@ -252,6 +267,7 @@ Print Assumptions C15_no_leak_refuted_before_fix.
 Print Assumptions C15_completes_refuted_with_ctx_drop.
 Print Assumptions C15_subscription_events_isolated.
 Print Assumptions C15_subscription_batch_leak_refuted_before_fix.
+Print Assumptions C15_subscription_stale_resolution_refuted_before_fix.
 Print Assumptions C15_idle_round_fulfils.
 Print Assumptions C15_idle_round_fair_unchained.
 Print Assumptions C15_idle_round_deliveries_outstanding.
